@@ -292,6 +292,9 @@ type Property struct {
 	Run         func(c *Ctx)
 	RunRace     func(c *Ctx) // executed only in the -race binary
 	MinEvals    int64        // fewer evaluations than this on a completed run => inconclusive
+	// Post inspects the merged counters and returns reasons for which the run,
+	// although free of violations, did not observe enough to be conclusive.
+	Post func(counters map[string]int64) []string
 }
 
 var registry = map[string]*Property{}
